@@ -36,6 +36,7 @@ type params struct {
 	Fee      string `json:"fee"`
 	Drip     int64  `json:"drip"`
 	BV       bool   `json:"bond_verifiers"`
+	TeamUp   bool   `json:"team_upper_case,omitempty"`
 }
 
 // network properties of a history
@@ -78,6 +79,7 @@ type jbond struct {
 	Dapp string `json:"dapp"`
 	U    int    `json:"u"`
 	Amt  string `json:"amt"`
+	User string `json:"user"`
 }
 type jlp struct {
 	Den    string   `json:"den"`
@@ -140,7 +142,23 @@ type hist struct {
 	ns    int64 // nanosecond part of the current block time
 	cf    cfg
 	ftN   int
+	mode  [nUsers]int // spelling of a person's address in string fields: 0 lower case, 1 upper case, 2 changing per message
+	sr    *hx.Rng
 }
+
+// sp: the spelling of user u's address for this message (bech32 is valid in all-lower and in all-upper case) and
+// the Coq term for it
+func (h *hist) sp(u int) (string, string) {
+	up := h.mode[u] == 1 || (h.mode[u] == 2 && h.sr != nil && h.sr.Chance(40))
+	if !up {
+		return h.e.ustr[u], fmt.Sprintf("U%d", u)
+	}
+	s := strings.ToUpper(h.e.ustr[u])
+	return s, hx.Str(s)
+}
+
+// person: index of the user whose address a string spells, in any case
+func (h *hist) person(s string) int { return h.uidx(strings.ToLower(s)) }
 
 func (h *hist) uidx(s string) int {
 	for i, u := range h.e.ustr {
@@ -161,7 +179,7 @@ func (h *hist) observe(op jop, coqOp string, ok bool, errs string) {
 	}
 	for _, b := range e.k.GetAllUserDappBonds(h.c) {
 		ui := h.uidx(b.User)
-		st.Bonds = append(st.Bonds, jbond{b.DappName, ui, b.Bond.Amount.String()})
+		st.Bonds = append(st.Bonds, jbond{b.DappName, h.person(b.User), b.Bond.Amount.String(), b.User})
 		us := hx.Str(b.User)
 		if ui >= 0 {
 			us = fmt.Sprintf("U%d", ui)
@@ -220,6 +238,7 @@ func (h *hist) newParams(r *hx.Rng, lpBig bool) params {
 	p := params{Denom: fmt.Sprintf("dn%d", h.denN), LpOK: true, Ratio: []string{"0.5", "1", "0.001", "0.333333333333333333", "0", "2.5"}[r.Intn(6)],
 		Premint: []int64{0, 7, 1000}[r.Intn(3)], Postmint: []int64{11, 1, 500000}[r.Intn(3)], Fee: []string{"0.01", "0", "0.003", "0.5", "1"}[r.Intn(5)]}
 	p.Drip = []int64{100, 1, 0, 86400}[r.Intn(4)]
+	p.TeamUp = r.Chance(12)
 	p.BV = r.Chance(40)
 	if lpBig {
 		p.Postmint = []int64{100000000, 5000000, 40}[r.Intn(3)]
@@ -242,8 +261,9 @@ func (h *hist) create(u int, name string, amt int64, foreign bool, p params) boo
 		den = "foreign"
 	}
 	d := h.dappOf(name, p)
+	snd, cq := h.sp(u)
 	ok, errs := h.tx(func(c sdk.Context) error {
-		_, err := e.ms.CreateDappProposal(sdk.WrapSDKContext(c), &l2types.MsgCreateDappProposal{Sender: e.ustr[u], Dapp: d, Bond: coin(den, amt)})
+		_, err := e.ms.CreateDappProposal(sdk.WrapSDKContext(c), &l2types.MsgCreateDappProposal{Sender: snd, Dapp: d, Bond: coin(den, amt)})
 		return err
 	})
 	if p.LpOK {
@@ -257,23 +277,31 @@ func (h *hist) create(u int, name string, amt int64, foreign bool, p params) boo
 	}
 	pp := p
 	h.observe(jop{Op: "create", U: u, Name: name, Amt: amt, Foreign: foreign, P: &pp},
-		fmt.Sprintf("OCreate U%d %s %s %s %s %s", u, hx.B(u == 3), hx.B(foreign), hx.Str(name), hx.Z(amt), paramsCoq(p)), ok, errs)
+		fmt.Sprintf("OCreate %s %s %s %s %s %s", cq, hx.B(u == 3), hx.B(foreign), hx.Str(name), hx.Z(amt), paramsCoq(p)), ok, errs)
 	return ok
 }
 
 func paramsCoq(p params) string {
-	return fmt.Sprintf("(mkParams %s %s %s %s %s %s U4 %s %s)", hx.Str("lp/"+p.Denom), hx.B(p.LpOK), hx.ZBig(decStr(p.Ratio).BigInt()),
-		hx.Z(p.Premint), hx.Z(p.Postmint), hx.ZBig(decStr(p.Fee).BigInt()), hx.Z(p.Drip), hx.B(p.BV))
+	team := "U4"
+	if p.TeamUp {
+		team = "(to_upper_U4)"
+	}
+	return fmt.Sprintf("(mkParams %s %s %s %s %s %s %s %s %s)", hx.Str("lp/"+p.Denom), hx.B(p.LpOK), hx.ZBig(decStr(p.Ratio).BigInt()),
+		hx.Z(p.Premint), hx.Z(p.Postmint), hx.ZBig(decStr(p.Fee).BigInt()), team, hx.Z(p.Drip), hx.B(p.BV))
 }
 
 // the record a creation / upsert message carries: controllers are users 0..2
 func (h *hist) dappOf(name string, p params) l2types.Dapp {
 	e := h.e
-	return l2types.Dapp{Name: name, Denom: p.Denom, Pool: l2types.LpPoolConfig{Ratio: decStr(p.Ratio), Drip: uint64(p.Drip)},
+	d := l2types.Dapp{Name: name, Denom: p.Denom, Pool: l2types.LpPoolConfig{Ratio: decStr(p.Ratio), Drip: uint64(p.Drip)},
 		Issuance:   l2types.IssuanceConfig{Premint: sdk.NewInt(p.Premint), Postmint: sdk.NewInt(p.Postmint)},
 		VoteQuorum: sdk.NewDecWithPrec(3, 1), VotePeriod: 10, VoteEnactment: 10, PoolFee: decStr(p.Fee), TeamReserve: e.ustr[4],
 		TotalBond: coin("ukex", 0), EnableBondVerifiers: p.BV,
 		Controllers: l2types.Controllers{Whitelist: l2types.AccountRange{Addresses: []string{e.ustr[0], e.ustr[1], e.ustr[2]}}}}
+	if p.TeamUp {
+		d.TeamReserve = strings.ToUpper(e.ustr[4])
+	}
+	return d
 }
 
 func (h *hist) blockTime() time.Time { return time.Unix(h.t0+h.now, h.ns).UTC() }
@@ -290,11 +318,12 @@ func (h *hist) setcfg(r *hx.Rng, cf cfg) {
 func (h *hist) burntx(u int, den string, amt int64) bool {
 	e := h.e
 	reg := e.tokReg(h.c, den)
+	snd, cq := h.sp(u)
 	ok, errs := h.tx(func(c sdk.Context) error {
-		_, err := e.ms.MintBurnTx(sdk.WrapSDKContext(c), &l2types.MsgMintBurnTx{Sender: e.ustr[u], Denom: den, Amount: sdk.NewInt(amt)})
+		_, err := e.ms.MintBurnTx(sdk.WrapSDKContext(c), &l2types.MsgMintBurnTx{Sender: snd, Denom: den, Amount: sdk.NewInt(amt)})
 		return err
 	})
-	h.observe(jop{Op: "burntx", U: u, Den: den, Amt: amt, Reg: reg}, fmt.Sprintf("OBurnTx U%d %s %s %s", u, hx.Str(den), hx.Z(amt), hx.B(reg)), ok, errs)
+	h.observe(jop{Op: "burntx", U: u, Den: den, Amt: amt, Reg: reg}, fmt.Sprintf("OBurnTx %s %s %s %s", cq, hx.Str(den), hx.Z(amt), hx.B(reg)), ok, errs)
 	return ok
 }
 
@@ -313,8 +342,9 @@ func (h *hist) anyDenom(r *hx.Rng) string {
 func (h *hist) mintissue(u int, den string, amt int64) bool {
 	e := h.e
 	reg, owner, rate, cp, sp := e.tokInf(h.c, den)
+	snd, cq := h.sp(u)
 	ok, errs := h.tx(func(c sdk.Context) error {
-		_, err := e.ms.MintIssueTx(sdk.WrapSDKContext(c), &l2types.MsgMintIssueTx{Sender: e.ustr[u], Denom: den, Amount: sdk.NewInt(amt)})
+		_, err := e.ms.MintIssueTx(sdk.WrapSDKContext(c), &l2types.MsgMintIssueTx{Sender: snd, Denom: den, Amount: sdk.NewInt(amt)})
 		return err
 	})
 	if reg && !h.hasDen(den) && den != "ukex" && sdk.ValidateDenom(den) == nil {
@@ -325,7 +355,7 @@ func (h *hist) mintissue(u int, den string, amt int64) bool {
 		ow = fmt.Sprintf("U%d", i)
 	}
 	h.observe(jop{Op: "mintissue", U: u, Den: den, Amt: amt, Reg: reg, Fee: rate.String()},
-		fmt.Sprintf("OMintIssue U%d %s %s %s %s %s %s %s", u, hx.Str(den), hx.Z(amt), hx.B(reg), ow, hx.ZBig(rate.BigInt()), hx.ZInt(cp), hx.ZInt(sp)), ok, errs)
+		fmt.Sprintf("OMintIssue %s %s %s %s %s %s %s %s", cq, hx.Str(den), hx.Z(amt), hx.B(reg), ow, hx.ZBig(rate.BigInt()), hx.ZInt(cp), hx.ZInt(sp)), ok, errs)
 	return ok
 }
 
@@ -392,8 +422,9 @@ func (h *hist) mintft(u int, fresh bool) bool {
 		h.ftN++
 	}
 	suffix := fmt.Sprintf("ft%d", h.ftN)
+	snd, cq := h.sp(u)
 	ok, errs := h.tx(func(c sdk.Context) error {
-		_, err := e.ms.MintCreateFtTx(sdk.WrapSDKContext(c), &l2types.MsgMintCreateFtTx{Sender: e.ustr[u], DenomSuffix: suffix, Name: suffix, Symbol: suffix,
+		_, err := e.ms.MintCreateFtTx(sdk.WrapSDKContext(c), &l2types.MsgMintCreateFtTx{Sender: snd, DenomSuffix: suffix, Name: suffix, Symbol: suffix,
 			Decimals: 6, Cap: sdk.NewInt(1000000), Supply: sdk.ZeroInt(), FeeRate: sdk.NewDecWithPrec(1, 2), Owner: e.ustr[u]})
 		return err
 	})
@@ -401,18 +432,20 @@ func (h *hist) mintft(u int, fresh bool) bool {
 	if h.ftN == 0 {
 		h.ftN = 1
 	}
-	h.observe(jop{Op: "mintft", U: u, Reg: isFresh}, fmt.Sprintf("OMintFt U%d %s", u, hx.B(isFresh)), ok, errs)
+	h.observe(jop{Op: "mintft", U: u, Reg: isFresh}, fmt.Sprintf("OMintFt %s %s", cq, hx.B(isFresh)), ok, errs)
 	return ok
 }
 
 // MsgJoinDappVerifierWithBond: the LP bond is taken from the Interx account
 func (h *hist) joinverifier(u, interx int, name string) bool {
 	e := h.e
+	snd, cq := h.sp(u)
+	isnd, icq := h.sp(interx)
 	ok, errs := h.tx(func(c sdk.Context) error {
-		_, err := e.ms.JoinDappVerifierWithBond(sdk.WrapSDKContext(c), &l2types.MsgJoinDappVerifierWithBond{Sender: e.ustr[u], Interx: e.ustr[interx], DappName: name})
+		_, err := e.ms.JoinDappVerifierWithBond(sdk.WrapSDKContext(c), &l2types.MsgJoinDappVerifierWithBond{Sender: snd, Interx: isnd, DappName: name})
 		return err
 	})
-	h.observe(jop{Op: "joinverifier", U: u, Name: name, Name2: fmt.Sprint(interx)}, fmt.Sprintf("OJoinVerifier U%d U%d %s", u, interx, hx.Str(name)), ok, errs)
+	h.observe(jop{Op: "joinverifier", U: u, Name: name, Name2: fmt.Sprint(interx)}, fmt.Sprintf("OJoinVerifier %s %s %s", cq, icq, hx.Str(name)), ok, errs)
 	return ok
 }
 
@@ -435,6 +468,7 @@ type upx struct {
 	Team     int     `json:"team_reserve"`
 	PostPaid bool    `json:"post_mint_paid"`
 	Text     string  `json:"text"`
+	CtrlUp   bool    `json:"controllers_upper_case"`
 }
 
 func (h *hist) randUpx(r *hx.Rng) upx {
@@ -443,7 +477,7 @@ func (h *hist) randUpx(r *hx.Rng) upx {
 		BondDen: []string{"ukex", "ukex", "foreign"}[r.Intn(3)], Quorum: []string{"0.3", "1"}[r.Intn(2)],
 		VotePer: []uint64{10, 5, 1}[r.Intn(3)], VoteEn: []uint64{10, 5, 1}[r.Intn(3)],
 		ExecMin: uint64(r.Intn(3)), ExecMax: []uint64{0, 1, 5, 1 << 40}[r.Intn(4)], VerMin: uint64(r.Intn(3)), UpdMax: []uint64{0, 60, 1 << 50}[r.Intn(3)],
-		Bins: r.Intn(3), Team: []int{4, 4, 0}[r.Intn(3)], PostPaid: r.Bool(), Text: []string{"", "Some Text", "x"}[r.Intn(3)]}
+		Bins: r.Intn(3), Team: []int{4, 4, 0}[r.Intn(3)], PostPaid: r.Bool(), Text: []string{"", "Some Text", "x"}[r.Intn(3)], CtrlUp: r.Chance(12)}
 }
 
 // ProposalUpsertDapp through the real gov msg server, the real gov EndBlocker and the real proposal router:
@@ -465,7 +499,11 @@ func (h *hist) upsert(name string, total int64, status int, ctime int64, p param
 	}
 	d.Controllers.Whitelist.Addresses = nil
 	for _, i := range x.Ctrl {
-		d.Controllers.Whitelist.Addresses = append(d.Controllers.Whitelist.Addresses, e.ustr[i])
+		a := e.ustr[i]
+		if x.CtrlUp {
+			a = strings.ToUpper(a)
+		}
+		d.Controllers.Whitelist.Addresses = append(d.Controllers.Whitelist.Addresses, a)
 	}
 	d.VoteQuorum, d.VotePeriod, d.VoteEnactment = decStr(x.Quorum), x.VotePer, x.VoteEn
 	d.ExecutorsMin, d.ExecutorsMax, d.VerifiersMin, d.UpdateTimeMax = x.ExecMin, x.ExecMax, x.VerMin, x.UpdMax
@@ -588,11 +626,12 @@ func (h *hist) bond(u int, name string, amt int64, foreign bool) bool {
 			den = h.dens[int(amt/2)%len(h.dens)]
 		}
 	}
+	snd, cq := h.sp(u)
 	ok, errs := h.tx(func(c sdk.Context) error {
-		_, err := e.ms.BondDappProposal(sdk.WrapSDKContext(c), &l2types.MsgBondDappProposal{Sender: e.ustr[u], DappName: name, Bond: coin(den, amt)})
+		_, err := e.ms.BondDappProposal(sdk.WrapSDKContext(c), &l2types.MsgBondDappProposal{Sender: snd, DappName: name, Bond: coin(den, amt)})
 		return err
 	})
-	h.observe(jop{Op: "bond", U: u, Name: name, Amt: amt, Foreign: foreign}, fmt.Sprintf("OBond U%d %s %s %s", u, hx.Str(name), hx.B(foreign), hx.Z(amt)), ok, errs)
+	h.observe(jop{Op: "bond", U: u, Name: name, Amt: amt, Foreign: foreign}, fmt.Sprintf("OBond %s %s %s %s", cq, hx.Str(name), hx.B(foreign), hx.Z(amt)), ok, errs)
 	return ok
 }
 
@@ -602,11 +641,19 @@ func (h *hist) reclaim(u int, name string, amt int64, foreign bool) bool {
 	if foreign {
 		den = "foreign"
 	}
+	snd, cq := h.sp(u)
+	if r := h.e.k.GetUserDappBond(h.c, name, snd); r.User == "" { // reclaim under the spelling the bond is recorded under, mostly
+		if alt := strings.ToUpper(e.ustr[u]); h.e.k.GetUserDappBond(h.c, name, alt).User != "" && (h.sr == nil || h.sr.Chance(70)) {
+			snd, cq = alt, hx.Str(alt)
+		} else if h.e.k.GetUserDappBond(h.c, name, e.ustr[u]).User != "" && (h.sr == nil || h.sr.Chance(70)) {
+			snd, cq = e.ustr[u], fmt.Sprintf("U%d", u)
+		}
+	}
 	ok, errs := h.tx(func(c sdk.Context) error {
-		_, err := e.ms.ReclaimDappBondProposal(sdk.WrapSDKContext(c), &l2types.MsgReclaimDappBondProposal{Sender: e.ustr[u], DappName: name, Bond: coin(den, amt)})
+		_, err := e.ms.ReclaimDappBondProposal(sdk.WrapSDKContext(c), &l2types.MsgReclaimDappBondProposal{Sender: snd, DappName: name, Bond: coin(den, amt)})
 		return err
 	})
-	h.observe(jop{Op: "reclaim", U: u, Name: name, Amt: amt, Foreign: foreign}, fmt.Sprintf("OReclaim U%d %s %s %s", u, hx.Str(name), hx.B(foreign), hx.Z(amt)), ok, errs)
+	h.observe(jop{Op: "reclaim", U: u, Name: name, Amt: amt, Foreign: foreign}, fmt.Sprintf("OReclaim %s %s %s %s", cq, hx.Str(name), hx.B(foreign), hx.Z(amt)), ok, errs)
 	return ok
 }
 
@@ -629,20 +676,21 @@ func (h *hist) tick(dt int64) bool {
 // kind 0 swap, 1 redeem, 2 convert -- through the msg server
 func (h *hist) lpmsg(kind, u int, name, name2, den string, amt int64, slip string) bool {
 	e := h.e
+	snd, cq := h.sp(u)
 	ok, errs := h.tx(func(c sdk.Context) error {
 		var err error
 		switch kind {
 		case 0:
-			_, err = e.ms.SwapDappPoolTx(sdk.WrapSDKContext(c), &l2types.MsgSwapDappPoolTx{Sender: e.ustr[u], DappName: name, Token: coin(den, amt), Slippage: decStr(slip)})
+			_, err = e.ms.SwapDappPoolTx(sdk.WrapSDKContext(c), &l2types.MsgSwapDappPoolTx{Sender: snd, DappName: name, Token: coin(den, amt), Slippage: decStr(slip)})
 		case 1:
-			_, err = e.ms.RedeemDappPoolTx(sdk.WrapSDKContext(c), &l2types.MsgRedeemDappPoolTx{Sender: e.ustr[u], DappName: name, LpToken: coin(den, amt), Slippage: decStr(slip)})
+			_, err = e.ms.RedeemDappPoolTx(sdk.WrapSDKContext(c), &l2types.MsgRedeemDappPoolTx{Sender: snd, DappName: name, LpToken: coin(den, amt), Slippage: decStr(slip)})
 		default:
-			_, err = e.ms.ConvertDappPoolTx(sdk.WrapSDKContext(c), &l2types.MsgConvertDappPoolTx{Sender: e.ustr[u], DappName: name, TargetDappName: name2, LpToken: coin(den, amt), Slippage: decStr(slip)})
+			_, err = e.ms.ConvertDappPoolTx(sdk.WrapSDKContext(c), &l2types.MsgConvertDappPoolTx{Sender: snd, DappName: name, TargetDappName: name2, LpToken: coin(den, amt), Slippage: decStr(slip)})
 		}
 		return err
 	})
 	h.observe(jop{Op: "lpmsg", Kind: kind, U: u, Name: name, Name2: name2, Den: den, Amt: amt, Fee: slip},
-		fmt.Sprintf("OLpMsg %d U%d %s %s %s %s", kind, u, hx.Str(name), hx.Str(name2), hx.Str(den), hx.Z(amt)), ok, errs)
+		fmt.Sprintf("OLpMsg %d %s %s %s %s %s", kind, cq, hx.Str(name), hx.Str(name2), hx.Str(den), hx.Z(amt)), ok, errs)
 	return ok
 }
 
@@ -697,6 +745,9 @@ func (h *hist) kconvert(u int, name, name2, den string, amt int64) bool {
 
 func (h *hist) userBond(name string, u int) int64 {
 	b := h.e.k.GetUserDappBond(h.c, name, h.e.ustr[u])
+	if b.User == "" || b.Bond.Amount.IsNil() {
+		b = h.e.k.GetUserDappBond(h.c, name, strings.ToUpper(h.e.ustr[u]))
+	}
 	if b.User == "" || b.Bond.Amount.IsNil() {
 		return 0
 	}
@@ -940,6 +991,12 @@ func main() {
 		cf0.FtFee = []uint64{100000000000000, 1000, 0}[r.Intn(3)]
 		cf0.VBond = []string{"0.001", "0.5", "0"}[r.Intn(3)]
 		h := newHistCfg(cf0)
+		h.sr = r.Fork()
+		if r.Chance(35) { // address STRING fields in upper case: always for some persons, changing per message for others
+			for u := 0; u < nUsers; u++ {
+				h.mode[u] = []int{0, 1, 2, 2}[r.Intn(4)]
+			}
+		}
 		names := append([]string{}, cleanNames[r.Intn(len(cleanNames))][:1+r.Intn(3)]...)
 		kind := "clean"
 		switch x := i % 16; {
@@ -1039,6 +1096,7 @@ func main() {
 		f.WriteString(fmt.Sprintf("Definition U%d : string := %s.\n", i, hx.Str(u)))
 	}
 	f.WriteString("Definition users : list string := [U0; U1; U2; U3; U4].\n")
+	f.WriteString(fmt.Sprintf("Definition to_upper_U4 : string := %s.\n", hx.Str(strings.ToUpper(e.ustr[4]))))
 	f.WriteString(fmt.Sprintf("Definition tree : variant := mkVariant %s %s %s %s %s %s %s.\nDefinition T0 : Z := 1700000000.\n", hx.B(vPrefix), hx.B(vZero), hx.B(vCreate), hx.B(vStale), hx.B(vNeg), hx.B(vUpsert), hx.B(vFee)))
 	out.WriteFile("pre.v", f.String())
 	out.WriteFile("cases.txt", strings.Join(coq, "\n")+"\n")
